@@ -81,7 +81,10 @@ class Reconstruction(torch.nn.Module, ABC):
             noise = None
         elif noise is None:
             noise = self.noise
-        recon = type(self)(fourier_op=self.fourier_op, dcf=self.dcf, noise=noise, csm=None)
+        # the coil images are always a direct reconstruction; type(self)(...) fails for subclasses with required arguments
+        from mrpro.algorithms.reconstruction.DirectReconstruction import DirectReconstruction
+
+        recon = DirectReconstruction(fourier_op=self.fourier_op, dcf=self.dcf, noise=noise, csm=None)
         image = recon.direct_reconstruction(kdata)
         self.csm = csm_calculation(image)
         return self
